@@ -40,8 +40,8 @@ TESTED_ONLY = [
 SPEC = {
     "id": "C07",
     "harness": "c07",
-    "n": {"quick": 30000, "thorough": 600000},
-    "shard": 250,
+    "n": {"quick": 26000, "thorough": 600000},   # random streams; the ~28000 deterministic edge inputs come on top
+    "shard": 500,
     "tie_codes": (3,),   # value differs but nobody crashes: the tie is broken, the property itself still holds on that input
     "trusted_base": [
         "/repo hooks */verif_export_c07.go (accessors of unexported parsers)",
